@@ -39,7 +39,7 @@ class ObjRec:
 
 
 def _is_psd(D):
-    if D.shape[-1] != D.shape[-2]:
+    if D.shape[-1] != D.shape[-2] or D.numel() == 0:
         return False
     Dd = D.double()
     if not bool(torch.isfinite(Dd).all()):
@@ -474,7 +474,7 @@ class World:
         seams.drain_log()
         what = op.get("recipe") or op.get("how")
         label = f"{oid} = " + (f"{op['recipe']}({_fmt(op['args'])})" if op["k"] == "build" else f"{op['src']}.{op['how']}({_fmt(op['args'])})")
-        if hist_exc is not None or fresh_exc is not None or not isinstance(obj, LinearOperator) or D is None or D.dim() < 2:
+        if hist_exc is not None or fresh_exc is not None or not isinstance(obj, LinearOperator) or D is None or D.dim() < 2 or D.numel() == 0:
             del self.objs[oid]
             outcome = (f"hist={type(hist_exc).__name__ if hist_exc else 'ok'} fresh={type(fresh_exc).__name__ if fresh_exc else 'ok'}"
                        + (f" to_dense={type(dense_exc).__name__}" if dense_exc else ""))
